@@ -336,4 +336,41 @@ def rule_f(prog, rep):
                               key=f'C20.f/{sv}', expected=str(sorted(want[sv])))
 
 
-RULES = [('C20.a', rule_a), ('C20.b', rule_b), ('C20.c', rule_c), ('C20.d', rule_d), ('C20.e', rule_e), ('C20.f', rule_f)]
+def rule_g(prog, rep):
+    rep.rule('C20.g', 'T3', "a call reports the server's verdict: in the request methods of the client (impl Worterbuch) the answer "
+             "received over the oneshot channel is a nested Result (channel error outside, the server's Ok / Err inside); after the "
+             "first `?` the inner Result must be examined again (`?`, `match`, returned) - dropping it (`.ok()`, a bare statement) "
+             'makes a refused set / cset / delete / lock look successful to the caller')
+    crate = prog.crate(CLIENT)
+    n = 0
+    for f in crate.top_fns():
+        if not f.path.startswith('Worterbuch::'):
+            continue
+        for b_ in [f] + crate.closures_of(f):
+            for nd, anc in walk(b_.hir):
+                if nd.get('k') != 'try' or not str(nd.get('operand_ty') or '').startswith('std::result::Result<std::result::Result<'):
+                    continue
+                if nd.get('x'):
+                    continue
+                n += 1
+                chain = [x for x in anc if isinstance(x, dict)]
+                par = chain[-1] if chain else {}
+                ok_ = par.get('k') in ('try', 'return') or (par.get('k') == 'match' and par.get('scrut') is nd) or \
+                    (par.get('k') == 'let' and par.get('init') is nd and par['pat'].get('k') == 'bind') or \
+                    (par.get('k') == 'block' and par.get('tail') is nd) or \
+                    (par.get('k') == 'call' and (ctor_name(par) or '').endswith(('Ok', 'Some')))
+                if par.get('k') == 'let' and ok_:
+                    # the bound inner Result must be used afterwards
+                    bid = par['pat'].get('id')
+                    ok_ = any(x.get('k') == 'path' and x.get('id') == bid for x, _ in walk(b_.hir))
+                inst = f'{short(f.path)}'
+                if ok_:
+                    rep.ok('C20.g', inst, loc(f, nd), "the server's verdict is examined after the channel result")
+                else:
+                    how = short(callee(par)) if par.get('k') == 'call' else (par.get('k') or 'statement')
+                    rep.violation('C20.g', inst, loc(f, nd), f"the server's Ok / Err is dropped (`{how}`): a refused request looks successful",
+                                  key=f'C20.g/{inst}/dropped/{how}')
+    rep.floor('C20.g', n, 15, 'answers with a nested Result')
+
+
+RULES = [('C20.g', rule_g), ('C20.a', rule_a), ('C20.b', rule_b), ('C20.c', rule_c), ('C20.d', rule_d), ('C20.e', rule_e), ('C20.f', rule_f)]
